@@ -91,6 +91,23 @@ void doExecute(RunState& rs, IWorld& w, const HistOp& op, bool simulate, const s
     ctx.sim.scribbleStack();
     if (op.op == "top") {
         w.topExecute(op.flags);
+        // the level arguments of the top-tree calls: the extended tree has nbLevelsAbove0 + 5 levels (documented in the
+        // algorithm's GenerateAboveTreeConfiguration); M2M goes from H-2 down to 3, M2L over 3..H-2, L2L from 3 up to H-2
+        if (rs.sc.topLevels >= 0) {
+            const long H = rs.sc.topLevels + 5;
+            std::vector<std::pair<int, long>> expect;
+            if (op.flags & F_M2M) for (long l = H - 2; l >= 3; --l) expect.emplace_back(OP_M2M, l);
+            if (op.flags & F_M2L) for (long l = 3; l <= H - 2; ++l) expect.emplace_back(OP_M2L, l);
+            if (op.flags & F_L2L) { for (long l = 3; l <= H - 3; ++l) expect.emplace_back(OP_L2L, l); expect.emplace_back(OP_L2L, H - 2); }
+            std::vector<std::pair<int, long>> got;
+            for (size_t i = firstCall; i < ctx.calls.size(); ++i) got.emplace_back(ctx.calls[i].op, ctx.calls[i].level);
+            if (got != expect) {
+                std::string g, e;
+                for (auto& x : got) g += std::string(opName(x.first)) + "@" + std::to_string(x.second) + " ";
+                for (auto& x : expect) e += std::string(opName(x.first)) + "@" + std::to_string(x.second) + " ";
+                ctx.addViolation("argcheck", "top.level-sequence", "periodic top-tree execute(flags=" + std::to_string(op.flags) + ") called [" + g + "] but the extended tree implies [" + e + "]");
+            }
+        }
         // the top tree reads level-1 multipoles and adds to level-1 locals (L2L into the real tree); nothing else may change
         for (size_t i = 0; i < w.view().bufs.size(); ++i) {
             const BufRec& b = w.view().bufs[i];
